@@ -2748,6 +2748,9 @@ impl<'de, 'e> de::Deserializer<'de> for YamlDeserializer<'de, 'e> {
             variant: String,
             map_mode: bool,
             variant_location: Location,
+            /// The validation path recorder, handed on to the variant's payload.
+            #[cfg(any(feature = "garde", feature = "validator"))]
+            garde: Option<&'e mut PathRecorder>,
         }
 
         impl<'de, 'e> de::EnumAccess<'de> for EA<'de, 'e> {
@@ -2765,6 +2768,8 @@ impl<'de, 'e> de::Deserializer<'de> for YamlDeserializer<'de, 'e> {
                     variant,
                     map_mode,
                     variant_location,
+                    #[cfg(any(feature = "garde", feature = "validator"))]
+                    garde,
                 } = self;
                 let v = seed.deserialize(variant.into_deserializer()).map_err(
                     |err: serde::de::value::Error| Error::SerdeVariantId {
@@ -2779,6 +2784,8 @@ impl<'de, 'e> de::Deserializer<'de> for YamlDeserializer<'de, 'e> {
                         cfg,
                         map_mode,
                         variant_location,
+                        #[cfg(any(feature = "garde", feature = "validator"))]
+                        garde,
                     },
                 ))
             }
@@ -2789,6 +2796,8 @@ impl<'de, 'e> de::Deserializer<'de> for YamlDeserializer<'de, 'e> {
             cfg: Cfg,
             map_mode: bool,
             variant_location: Location,
+            #[cfg(any(feature = "garde", feature = "validator"))]
+            garde: Option<&'e mut PathRecorder>,
         }
 
         impl<'de, 'e> VA<'de, 'e> {
@@ -2861,11 +2870,32 @@ impl<'de, 'e> de::Deserializer<'de> for YamlDeserializer<'de, 'e> {
                     .unwrap_or_else(|| self.ev.last_location());
                 let reference_location = self.ev.reference_location();
 
-                let value = seed
-                    .deserialize(YamlDeserializer::new(self.ev, self.cfg))
-                    .map_err(|e| {
-                        attach_alias_locations_if_missing(e, reference_location, defined_location)
-                    })?;
+                #[cfg(any(feature = "garde", feature = "validator"))]
+                let value = if let Some(recorder) = self.garde.as_deref_mut() {
+                    // Validators address the payload of a newtype variant as element 0.
+                    let prev = recorder.current.take();
+                    let now = prev.clone().join(0usize);
+                    recorder.current = now.clone();
+                    recorder.map.insert(
+                        now,
+                        Locations {
+                            reference_location,
+                            defined_location,
+                        },
+                    );
+                    let res = seed.deserialize(YamlDeserializer::new_with_path_recorder(
+                        self.ev, self.cfg, recorder,
+                    ));
+                    recorder.current = prev;
+                    res
+                } else {
+                    seed.deserialize(YamlDeserializer::new(self.ev, self.cfg))
+                };
+                #[cfg(not(any(feature = "garde", feature = "validator")))]
+                let value = seed.deserialize(YamlDeserializer::new(self.ev, self.cfg));
+                let value = value.map_err(|e| {
+                    attach_alias_locations_if_missing(e, reference_location, defined_location)
+                })?;
                 if self.map_mode {
                     self.expect_map_end()?;
                 }
@@ -2882,8 +2912,16 @@ impl<'de, 'e> de::Deserializer<'de> for YamlDeserializer<'de, 'e> {
                     return YamlDeserializer::new(&mut payload, self.cfg)
                         .deserialize_tuple(len, visitor);
                 }
-                let result =
-                    YamlDeserializer::new(self.ev, self.cfg).deserialize_tuple(len, visitor)?;
+                #[cfg(any(feature = "garde", feature = "validator"))]
+                let de = match self.garde.as_deref_mut() {
+                    Some(recorder) => {
+                        YamlDeserializer::new_with_path_recorder(self.ev, self.cfg, recorder)
+                    }
+                    None => YamlDeserializer::new(self.ev, self.cfg),
+                };
+                #[cfg(not(any(feature = "garde", feature = "validator")))]
+                let de = YamlDeserializer::new(self.ev, self.cfg);
+                let result = de.deserialize_tuple(len, visitor)?;
                 if self.map_mode {
                     self.expect_map_end()?;
                 }
@@ -2904,8 +2942,16 @@ impl<'de, 'e> de::Deserializer<'de> for YamlDeserializer<'de, 'e> {
                     return YamlDeserializer::new(&mut payload, self.cfg)
                         .deserialize_struct("", fields, visitor);
                 }
-                let result = YamlDeserializer::new(self.ev, self.cfg)
-                    .deserialize_struct("", fields, visitor)?;
+                #[cfg(any(feature = "garde", feature = "validator"))]
+                let de = match self.garde.as_deref_mut() {
+                    Some(recorder) => {
+                        YamlDeserializer::new_with_path_recorder(self.ev, self.cfg, recorder)
+                    }
+                    None => YamlDeserializer::new(self.ev, self.cfg),
+                };
+                #[cfg(not(any(feature = "garde", feature = "validator")))]
+                let de = YamlDeserializer::new(self.ev, self.cfg);
+                let result = de.deserialize_struct("", fields, visitor)?;
                 if self.map_mode {
                     self.expect_map_end()?;
                 }
@@ -3009,6 +3055,8 @@ impl<'de, 'e> de::Deserializer<'de> for YamlDeserializer<'de, 'e> {
                 variant,
                 map_mode: false,
                 variant_location,
+                #[cfg(any(feature = "garde", feature = "validator"))]
+                garde: self.garde.take(),
             },
             Mode::Map(variant, variant_location) => EA {
                 ev: self.ev,
@@ -3016,6 +3064,8 @@ impl<'de, 'e> de::Deserializer<'de> for YamlDeserializer<'de, 'e> {
                 variant,
                 map_mode: true,
                 variant_location,
+                #[cfg(any(feature = "garde", feature = "validator"))]
+                garde: self.garde.take(),
             },
             Mode::TaggedNewtype(variant, variant_location, replay_buf) => {
                 let replay = Box::new(ReplayEvents::new(replay_buf));
